@@ -309,6 +309,12 @@ def run(ctx):
     rng = ctx.rng
     idx = 0
     spaces = [("3sp,<=2rxn,unit", (0, 1), 2)] if ctx.quick else [("3sp,<=3rxn,unit", (0, 1), 3)]
+    if not ctx.quick:
+        for net in W.enum_networks(("A", "B", "C", "D"), (0, 1), 2):
+            idx += 1
+            if ctx.mine(idx):
+                check_structure(ctx, net, tag="4sp,<=2rxn,unit")
+        ctx.exhaustive["4sp,<=2rxn,unit (all species subsets)"] = True
     for tag, coeffs, k in spaces:
         for net in W.enum_networks(("A", "B", "C"), coeffs, k):
             idx += 1
